@@ -77,7 +77,7 @@ BATTERY = [
 
 def generate(rng, tier="quick"):
     n = rng.randint(4, 16)
-    kinds = ["create", "create", "validates", "create_illegal", "create_mismatched", "validator_for", "validator_for", "validate",
+    kinds = ["create", "create", "validates", "create_illegal", "create_mismatched", "create_nested", "validator_for", "validator_for", "validate",
              "validate", "cli", "suspend", "resume", "validate_cls"]
     enabled = [k for k in kinds if rng.random() < 0.8] or kinds
     if "create" not in enabled and "validates" not in enabled:
@@ -301,6 +301,34 @@ def execute(scn):
                 last_registration = step
                 if suspended:
                     probe("registration_while_iterator_suspended")
+                check_registry(step, k)
+            elif k == "create_nested":
+                # the user's id function - which the library calls WHILE it registers class X - itself registers
+                # another class Y (re-entrant registration): both must end up selectable
+                base = drafts[op["base"]]
+                idkw = "id" if op["base"] in ("draft3", "draft4") else "$id"
+                uid_x, uid_y = "urn:dsim:c20:nested-x-%d" % step, "urn:dsim:c20:nested-y-%d" % step
+                inner = {}
+
+                def id_of_x(schema):
+                    if not inner:
+                        inner["cls"] = None
+                        my = {idkw: uid_y}
+                        inner["cls"] = V.create(meta_schema=my, validators=dict(base.VALIDATORS),
+                                                version="dsim c20 nested y %d" % step,
+                                                type_checker=base.TYPE_CHECKER, id_of=base.ID_OF)
+                    return base.ID_OF(schema)
+                kws = dict(base.VALIDATORS)
+                kws["maxLength"] = variant_kw("maxLength")
+                cls_x = V.create(meta_schema={idkw: uid_x}, validators=kws, version="dsim c20 nested x %d" % step,
+                                 type_checker=base.TYPE_CHECKER, id_of=id_of_x)
+                for u_, c_ in ((uid_y, inner["cls"]), (uid_x, cls_x)):
+                    model[u_] = c_
+                    born[u_] = step
+                    notes[id(c_)] = "nested@%d<%s" % (step, op["base"])
+                    new_ids.append(u_)
+                last_registration = step
+                probe("reentrant_registration")
                 check_registry(step, k)
             elif k == "create_mismatched":
                 # a class built from a BUILT-IN draft's metaschema but with the id function of the other family
